@@ -415,9 +415,79 @@ func watchFactsOf(file *ast.File, fd *ast.FuncDecl) watchFacts {
 	return wf
 }
 
+// guardTerm translates a guard condition `obj.<field path> ==/!= <zero literal>` into a Lean term of
+// type GGuard (field, isZero).  Anything else becomes the field `other` (the twin ignores it and the
+// correspondence check then shows the difference).
+func guardTerm(e ast.Expr, obj string) string {
+	be, ok := e.(*ast.BinaryExpr)
+	if !ok || (be.Op != token.EQL && be.Op != token.NEQ) {
+		return "⟨.other, true⟩"
+	}
+	lit, ok := be.Y.(*ast.BasicLit)
+	if !ok || (lit.Value != `""` && lit.Value != "0") {
+		return "⟨.other, true⟩"
+	}
+	field := fieldTerm(strings.TrimPrefix(exprString(be.X), obj+"."))
+	return fmt.Sprintf("⟨%s, %s⟩", field, leanBool(be.Op == token.EQL))
+}
+
+func fieldTerm(path string) string {
+	switch path {
+	case "ID", "ID.Target.ID":
+		return ".id"
+	case "TargetID":
+		return ".targetID"
+	case "TransactionIndex":
+		return ".txIndex"
+	case "Revision":
+		return ".revision"
+	case "Version":
+		return ".version"
+	case "Key":
+		return ".key"
+	case "ID.Target.Type":
+		return ".targetType"
+	case "ID.Target.Version":
+		return ".targetVersion"
+	}
+	return ".other"
+}
+
+// guardTermsOf: like guardsOf, as Lean terms; defaults are reported by field.
+func guardTermsOf(fd *ast.FuncDecl) (guards, defaults []string) {
+	obj := objParam(fd)
+	for _, st := range fd.Body.List {
+		is, ok := st.(*ast.IfStmt)
+		if !ok || is.Init != nil || is.Else != nil {
+			break
+		}
+		if isReturnInvalid(is.Body) {
+			guards = append(guards, guardTerm(is.Cond, obj))
+			continue
+		}
+		if isSingleAssign(is.Body) {
+			defaults = append(defaults, guardTerm(is.Cond, obj))
+			continue
+		}
+		break
+	}
+	return
+}
+
+func posOfCall(names []string, suffix string) int {
+	for i, n := range names {
+		if strings.HasSuffix(n, suffix) {
+			return i
+		}
+	}
+	return -1
+}
+
 func init() {
 	sections = append(sections, func() {
 		out.WriteString("/-! ### store facts (C15): guards, Revision++, IfVersion, call order, watch structure -/\n\n")
+		out.WriteString("/-- a field of a stored record that a store wrapper inspects -/\ninductive GField\n  | id | targetID | txIndex | revision | version | key | targetType | targetVersion | other\nderiving DecidableEq, Repr\n\n")
+		out.WriteString("/-- `if obj.<field> == <zero value> { return errors.NewInvalid(…) }` (isZero) or `!=` (¬isZero) -/\nstructure GGuard where\n  field : GField\n  isZero : Bool\nderiving DecidableEq, Repr\n\n")
 		for _, src := range storeSrcs {
 			f := parseFile(src.rel)
 			if f == nil {
@@ -430,12 +500,14 @@ func init() {
 					continue
 				}
 				obj := objParam(fd)
-				guards, defaults := guardsOf(fd)
-				fmt.Fprintf(&out, "/-- argument guards of `%s` in %s, in source order -/\ndef %s%sGuards : List String := %s\n\n",
-					m, src.rel, src.prefix, m, leanStrList(guards))
+				guards, defaults := guardTermsOf(fd)
+				texts, _ := guardsOf(fd)
+				fmt.Fprintf(&out, "/-- argument guards of `%s` in %s, in source order: %s -/\ndef %s%sGuards : List GGuard := [%s]\n\n",
+					m, src.rel, strings.Join(texts, "; "), src.prefix, m, strings.Join(guards, ", "))
+				names := calls(fd.Body)
 				if m == "Create" {
-					fmt.Fprintf(&out, "/-- defaulting ifs (`if cond { field = … }`) before the guards of `Create` in %s -/\ndef %sCreateDefaults : List String := %s\n\n",
-						src.rel, src.prefix, leanStrList(defaults))
+					fmt.Fprintf(&out, "/-- defaulting ifs (`if cond { field = … }`) before the guards of `Create` in %s -/\ndef %sCreateDefaults : List GGuard := [%s]\n\n",
+						src.rel, src.prefix, strings.Join(defaults, ", "))
 					var pc *ast.CallExpr
 					prim := ""
 					for _, name := range []string{"Append", "Insert"} {
@@ -447,10 +519,15 @@ func init() {
 						fail("%s: Create has no Append/Insert of the record", src.rel)
 						continue
 					}
-					fmt.Fprintf(&out, "/-- primitive operation of `Create` in %s -/\ndef %sCreatePrim : String := %s\n\n", src.rel, src.prefix, leanStr(prim))
-					fmt.Fprintf(&out, "/-- `%s.Revision = …` before the primitive call of `Create` in %s -/\ndef %sCreateRevision : String := %s\n\n",
-						obj, src.rel, src.prefix, leanStr(assignsBefore(fd, "Revision", pc.Pos())))
-					fmt.Fprintf(&out, "/-- callee names of `Create` in %s, in source order -/\ndef %sCreateCalls : List String := %s\n\n", src.rel, src.prefix, leanStrList(calls(fd.Body)))
+					fmt.Fprintf(&out, "/-- `Create` in %s writes with `%s`: an indexed log (Append) or a plain map (Insert) -/\ndef %sCreateAppends : Bool := %s\n\n", src.rel, prim, src.prefix, leanBool(prim == "Append"))
+					rev := assignsBefore(fd, "Revision", pc.Pos())
+					n := 0
+					fmt.Sscanf(rev, "%d", &n)
+					fmt.Fprintf(&out, "/-- `%s.Revision = %s` before the primitive call of `Create` in %s -/\ndef %sCreateRevision : Nat := %d\n\n",
+						obj, rev, src.rel, src.prefix, n)
+					si, pi := posOfCall(names, "s.store"), posOfCall(names, "."+prim)
+					fmt.Fprintf(&out, "/-- `Create` in %s calls `s.store(…)` (values half) before the entry %s -/\ndef %sCreateValuesFirst : Bool := %s\n\n",
+						src.rel, prim, src.prefix, leanBool(si >= 0 && pi >= 0 && si < pi))
 					continue
 				}
 				pc := primCall(fd, "Update")
@@ -458,11 +535,20 @@ func init() {
 					fail("%s: %s has no primitive Update of the record", src.rel, m)
 					continue
 				}
-				fmt.Fprintf(&out, "/-- field passed as `IfVersion(primitive.Version(%s.<field>))` by `%s` in %s (empty: unconditional write) -/\ndef %s%sIfVersion : String := %s\n\n",
-					obj, m, src.rel, src.prefix, m, leanStr(ifVersionField(pc, obj)))
+				fmt.Fprintf(&out, "/-- field passed as `IfVersion(primitive.Version(%s.<field>))` by `%s` in %s (`other`: no IfVersion, unconditional write) -/\ndef %s%sIfVersion : GField := %s\n\n",
+					obj, m, src.rel, src.prefix, m, fieldTerm(ifVersionField(pc, obj)))
 				fmt.Fprintf(&out, "/-- `%s.Revision++` before the primitive call of `%s` in %s -/\ndef %s%sRevisionInc : Bool := %s\n\n",
 					obj, m, src.rel, src.prefix, m, leanBool(revisionIncBefore(fd, pc.Pos())))
-				fmt.Fprintf(&out, "/-- callee names of `%s` in %s, in source order -/\ndef %s%sCalls : List String := %s\n\n", m, src.rel, src.prefix, m, leanStrList(calls(fd.Body)))
+				si := posOfCall(names, "s.store")
+				pi := -1
+				for i, n := range names {
+					if strings.HasSuffix(n, ".Update") && i > si {
+						pi = i
+						break
+					}
+				}
+				fmt.Fprintf(&out, "/-- `%s` in %s calls `s.store(…)` (values half) before the entry compare-and-set -/\ndef %s%sValuesFirst : Bool := %s\n\n",
+					m, src.rel, src.prefix, m, leanBool(si >= 0 && pi >= 0 && si < pi))
 			}
 			wd := methodDecl(f, "Watch")
 			if wd == nil {
